@@ -755,12 +755,24 @@ impl Resolver {
             Some(cond) => Some(self.expression(&cond)?),
             None => None,
         };
-        let body = self.block(&branch.body)?;
+        // The branch is a scope of its own - what it declares ends with it.
+        let ss = self.stack.len();
+        let body = self.block(&branch.body);
+        self.stack.truncate(ss);
+        let body = body?;
         let span = branch.span;
         Ok(IfBranch { condition, body, span })
     }
 
     fn case_branch(&mut self, branch: &ParserCaseBranch) -> ResolveResult<CaseBranch> {
+        let ss = self.stack.len();
+        let res = self.case_branch_inner(branch);
+        // The binding and what the arm declares end with the arm.
+        self.stack.truncate(ss);
+        res
+    }
+
+    fn case_branch_inner(&mut self, branch: &ParserCaseBranch) -> ResolveResult<CaseBranch> {
         let variable = &branch
             .variable
             .as_ref()
@@ -837,7 +849,12 @@ impl Resolver {
                     branches.push(self.case_branch(branch)?);
                 }
                 let fall_through = match fall_through {
-                    Some(x) => Some(self.block(x)?),
+                    Some(x) => {
+                        let ss = self.stack.len();
+                        let block = self.block(x);
+                        self.stack.truncate(ss);
+                        Some(block?)
+                    }
                     None => None,
                 };
                 E::Case { to_match, branches, fall_through, span }
